@@ -50,6 +50,26 @@ def snap_any(x):
     return snap_array(x)
 
 
+def snap_predictor(p):
+    """every column of a PhasePredictor (a table): Times, Quantities, and the Polynomial objects of the 'poly' column by their contents"""
+    cols = []
+    for name in p.colnames:
+        c = p[name]
+        if isinstance(c, Time):
+            cols.append((name, snap_array(c)))
+        elif isinstance(c, u.Quantity):
+            v = np.asarray(c.view(np.ndarray))
+            cols.append((name, str(c.unit), v.dtype.str, v.tobytes()))
+        else:
+            a = np.asarray(c)
+            if a.dtype == object:
+                cols.append((name, tuple((np.asarray(q.coef).tobytes(), np.asarray(q.domain).tobytes(), np.asarray(q.window).tobytes())
+                                         if hasattr(q, 'coef') else repr(q) for q in a.ravel())))
+            else:
+                cols.append((name, a.dtype.str, a.tobytes()))
+    return ('P', len(p), tuple(cols))
+
+
 class _NdSub(np.ndarray):
     pass
 
@@ -343,6 +363,59 @@ def run(ctx):
                 err = e
                 ctx.count('raised:' + type(e).__name__)
             changed = [f'argument {j} ({type(x).__name__})' for j, x in enumerate(extra) if snap_any(x) != before[j]]
+            if changed:
+                ctx.fail('input_modified', inp, impl=dict(changed=changed, raised=repr(err) if err else None))
+
+    # ---- predictor calls: the predictor itself (every column, the stored polynomials by content) and the Time / Phase arguments are
+    # unchanged, whether the call returns or raises
+    import io
+    two = ('PSRX      1-Jan-20  000000.00   58849.00000000000            10.000000 -0.000 -6.000\n'
+           '   100000000.250000      2.000000000000    0   60    3  1400.000\n'
+           '  1.00000000000000000D-01  2.00000000000000000D-03  3.00000000000000000D-06\n'
+           'PSRX      1-Jan-20  000000.00   58849.04166666667            10.000000 -0.000 -6.000\n'
+           '   100007200.750000      2.000000000000    0   60    3  1400.000\n'
+           ' -1.00000000000000000D-01  5.00000000000000000D-03 -3.00000000000000000D-06\n')
+    preds = []
+    for nm, f in (('timing.dat', lambda: pb.PhasePredictor.from_polyco(DATA + 'timing.dat')), ('two_entries', lambda: pb.PhasePredictor.from_polyco(io.StringIO(two)))):
+        try:
+            preds.append((nm, f()))
+        except Exception as e:
+            ctx.fail('predictor_open_raised', dict(predictor=nm), impl=repr(e))
+    for nm, p in preds:
+        half = float(p['span'][0].to_value(u.s)) / 2
+        for k in range(16 if ctx.tier == 'quick' else 160):
+            i = rng.randrange(len(p))
+            off = rng.choice([0.0, 100.0, -250.0, 0.4 * half, -0.9 * half, rng.uniform(-0.99, 0.99) * half])
+            t1 = p['tmid'][i] + off * u.s
+            if rng.random() < 0.3:
+                t1 = getattr(t1, rng.choice(['tt', 'tai']))
+            ta = p['tmid'][i] + np.array([off, -off / 2, 17.0]) * u.s
+            tout = p['tmid'][0] - 10 * u.day
+            try:
+                ph = p(t1)
+            except Exception as e:
+                ctx.fail('predictor_call_raised', dict(predictor=nm, entry=i, offset=off), impl=repr(e))
+                continue
+            calls = [('call_scalar', lambda: p(t1), [t1]), ('call_array', lambda: p(ta), [ta]), ('call_outside', lambda: p(tout), [tout]),
+                     ('f0', lambda: p.f0(t1), [t1]), ('f0_second_derivative', lambda: p.f0(ta, 2), [ta]),
+                     ('phasepol', lambda: p.phasepol(t1), [t1]), ('phasepol_outside', lambda: p.phasepol(tout), [tout]),
+                     ('time_at', lambda: p.time_at(ph), [ph]), ('intervals', lambda: p.intervals, []),
+                     ('phasepol_then_call', lambda: (p.phasepol(t1), p(ta)), [t1, ta])]
+            name, thunk, extra = rng.choice(calls)
+            before, pbefore = [snap_any(x) for x in extra], snap_predictor(p)
+            inp = dict(op='predictor:' + name, predictor=nm, entry=i, offset=off, scale=t1.scale)
+            ctx.seen(inp); ctx.count('op:predictor:' + name)
+            err = None
+            try:
+                thunk()
+                ctx.count('returned')
+            except Exception as e:
+                err = e
+                ctx.count('raised:' + type(e).__name__)
+            changed = [f'argument {j} ({type(x).__name__})' for j, x in enumerate(extra) if snap_any(x) != before[j]]
+            pafter = snap_predictor(p)
+            if pafter != pbefore:
+                changed.append('the predictor: column(s) ' + ', '.join(a[0] for a, b in zip(pbefore[2], pafter[2]) if a != b))
             if changed:
                 ctx.fail('input_modified', inp, impl=dict(changed=changed, raised=repr(err) if err else None))
     for f_ in files:
